@@ -1,7 +1,7 @@
 (* Props/C20.v — generators and aggregating constructors build what they advertise.
    Only statements, `exact`, Print Assumptions, and concrete Examples (non-vacuity). *)
 From Coq Require Import List Arith ZArith Bool QArith Qcanon Sorting.Sorted.
-From PV Require Import Base.Index Base.Sum Base.Perm Np.Array Model.Sparse Model.Repr Model.Harness Model.C20Gen Model.C20Harness Proofs.C20Proofs Proofs.C20Teneye Proofs.C20TeneyeGen Proofs.C20Guards.
+From PV Require Import Base.Index Base.Sum Base.Perm Np.Array Model.Sparse Model.Repr Model.Harness Model.C20Gen Model.C20Harness Proofs.C20Proofs Proofs.C20Teneye Proofs.C20TeneyeGen Proofs.C20Guards Proofs.C20W3.
 Import ListNotations.
 Local Open Scope nat_scope.
 
@@ -319,6 +319,67 @@ Proof. exact teneye_identity_order4. Qed.
 Print Assumptions C20_teneye_identity_order2.
 Print Assumptions C20_teneye_identity_order4.
 
+(* ---------------------------------------------------------------- wave 3: corner requests *)
+(* no element / no pair: the zero tensor of EXACTLY the requested shape (zero sizes included) — dense: every cell zero;
+   sparse and aggregating constructor: no stored entry *)
+Theorem C20_diag_no_element : forall (V : Type) (v0 : V) (vadd : V -> V -> V) (isz : V -> bool) (s : shape),
+  tendiag v0 [] (Some s) = mkDense s (repeat v0 (size s)) /\
+  sptendiag v0 vadd isz [] (Some s) = mkSp s [] [] /\
+  (forall f : list V -> V, from_aggregator isz s [] [] f = mkSp s [] []).
+Proof. exact (fun V v0 vadd isz s => conj (tendiag_no_element v0 s) (conj (sptendiag_no_element v0 vadd isz s) (aggregator_no_pair isz s))). Qed.
+Print Assumptions C20_diag_no_element.
+
+(* tendiag, every request (sizes in Z): rejected EXACTLY WHEN the constructed shape is empty (the empty shape requested,
+   or no shape and no element: an order-0 dense tensor cannot be generated, C20_dense_generator_guard); every accepted
+   request yields the tensor of C20_tendiag with the shape rule's shape, which has at least one mode.
+   pyttb crashes on "no element, non-empty shape" (finding C20-N6): the model states what the property demands *)
+Theorem C20_tendiag_request : forall (e : list Z) (so : option (list Z)),
+  (ztendiag_req e so = None <-> so = Some [] \/ (so = None /\ e = [])) /\
+  (forall T, ztendiag_req e so = Some T ->
+     T = ztendiag_z e so /\ dshape T = diag_shape_z (length e) so /\ 1 <= length (dshape T)).
+Proof. exact tendiag_req_spec. Qed.
+Print Assumptions C20_tendiag_request.
+
+Theorem C20_tendiag_request_no_element : forall s : list Z, s <> [] ->
+  ztendiag_req [] (Some s) = Some (mkDense (to_shape s) (repeat 0%Z (size (to_shape s)))).
+Proof. exact tendiag_req_no_element. Qed.
+Print Assumptions C20_tendiag_request_no_element.
+
+(* sptendiag, every request: rejected EXACTLY WHEN there are elements and the empty shape was requested (an order-0
+   tensor cannot carry them; pyttb drops them silently, finding C20-N7), or there is no element and a requested size is
+   below one (the sparse constructor's rule) *)
+Theorem C20_sptendiag_request : forall (e : list Z) (so : option (list Z)),
+  zsptendiag_req e so = None <->
+  (e <> [] /\ so = Some []) \/ (e = [] /\ exists s, so = Some s /\ Exists (fun d => (d <= 0)%Z) s).
+Proof. exact sptendiag_req_spec. Qed.
+Print Assumptions C20_sptendiag_request.
+
+(* from_aggregator with sizes in Z: a size below one is rejected; neither a shape nor a pair is rejected (nothing to
+   infer the shape from); a positive shape without a pair gives the empty tensor of that shape *)
+Theorem C20_aggregator_request : forall (so : option (list Z)) (N : nat) (subs : list idx) (vals : list Z) (r : reducer),
+  (forall s, so = Some s -> Exists (fun d => (d <= 0)%Z) s -> zaggregator_z so N subs vals r = None) /\
+  (so = None -> subs = [] -> zaggregator_z so N subs vals r = None) /\
+  (forall s, so = Some s -> Forall (fun d => (0 < d)%Z) s -> zaggregator_z so N [] [] r = Some (mkSp (to_shape s) [] [])).
+Proof. exact aggregator_z_spec. Qed.
+Print Assumptions C20_aggregator_request.
+
+(* the PROPOSED repair of finding A-46 (fixes/C20-A-46-union-fallback.diff; model C20Gen.sprand_subs_union), the draws
+   as inputs: whenever the loop as coded ends with enough distinct rows the result is EXACTLY today's (same seeded
+   outputs, same draws consumed); otherwise it holds min(request, number of distinct rows over ALL consumed draws) rows,
+   each a row of a consumed draw; always strictly ascending; distinct and inside the shape for valid draws.
+   (C20_requested_count_refuted stays true of it: ten draws that all hit one row end short.) *)
+Theorem C20_sprand_union_repair : forall (nz : nat) (s : shape) (draws : list (list (list Z))),
+  let r := redraw 10 nz s [] draws in
+  let pool := pool_rows s (firstn (snd r) draws) in
+  (nz <= length (fst r) -> sprand_subs_union nz s draws = sprand_subs nz s draws) /\
+  (length (fst r) < nz ->
+     length (sprand_subs_union nz s draws) = Nat.min nz (length (dedup_first pool)) /\
+     (forall i, In i (sprand_subs_union nz s draws) -> In i pool)) /\
+  StronglySorted idx_lt (sprand_subs_union nz s draws) /\
+  (Forall (fun d => 0 < d) s -> Forall (valid_draw s) draws -> good s (sprand_subs_union nz s draws)).
+Proof. exact sprand_union_spec. Qed.
+Print Assumptions C20_sprand_union_repair.
+
 (* ---------------------------------------------------------------- non-vacuity: concrete, non-symmetric instances *)
 Example C20_example_from_function :
   zfrom_function [2; 3] (mkDense [6] [1; 2; 3; 4; 5; 6]%Z) = Some (mkDense [2; 3] [1; 2; 3; 4; 5; 6]%Z)
@@ -366,3 +427,26 @@ Example C20_example_teneye_identity :
   (qpow (qdot x) (4/2-1) * nth 0 x q0)%Qc = Q2Qc (37#8) /\
   (qpow (qdot x) (4/2-1) * nth 1 x q0)%Qc = Q2Qc (-111#4).
 Proof. exact teneye_identity_example. Qed.
+
+Example C20_example_corner_requests :
+  ztendiag_req [] (Some [2; 3]%Z) = Some (mkDense [2; 3]%nat [0; 0; 0; 0; 0; 0]%Z) /\
+  ztendiag_req [1; 2]%Z (Some []) = None /\ ztendiag_req [] None = None /\
+  ztendiag_req [] (Some [0; 2]%Z) = Some (mkDense [0; 2]%nat []) /\
+  zsptendiag_req [1; 2]%Z (Some []) = None /\ zsptendiag_req [] (Some []) = Some (mkSp [] [] []) /\
+  zsptendiag_req [] None = Some (mkSp [] [] []) /\ zsptendiag_req [] (Some [0; 2]%Z) = None /\
+  zsptendiag_req [2; 0; 2]%Z (Some [1; 4]%Z) = Some (mkSp [3; 4]%nat [[0; 0]; [2; 2]]%nat [2; 2]%Z) /\
+  zaggregator_z (Some [2; 3]%Z) 2 [] [] RMax = Some (mkSp [2; 3]%nat [] []) /\
+  zaggregator_z None 2 [] [] RSum = None /\ zaggregator_z (Some [2; 0]%Z) 2 [] [] RSum = None /\
+  zaggregator (Some [2; 3]%nat) 2 [[0; 1]; [1; 2]; [0; 1]; [1; 2]]%nat [0; 4; 5; 2]%Z RMin = Some (mkSp [2; 3]%nat [[1; 2]]%nat [2]%Z) /\
+  zaggregator (Some [2; 3]%nat) 2 [[0; 1]; [1; 2]; [0; 1]; [1; 2]]%nat [1; 4; 5; 2]%Z RMean = Some (mkSp [2; 3]%nat [[0; 1]; [1; 2]]%nat [3; 3]%Z).
+Proof. exact diag_req_examples. Qed.
+
+Example C20_example_union_repair :
+  let h := (2 ^ 52)%Z in
+  let da := [[0; h]; [1; h + 5]]%Z in let db := [[h; h]; [h + 1; h + 3]]%Z in
+  let ds := [da; db; da; db; da; db; da; db; da; db] in
+  sprand_subs 2 [2; 3]%nat ds = [[1; 1]]%nat /\ sprand_subs_union 2 [2; 3]%nat ds = [[0; 1]; [1; 1]]%nat /\
+  sprand_consumed 2 [2; 3]%nat ds = 10%nat /\
+  sprand_subs_union 2 [2; 3]%nat (repeat da 10) = [[0; 1]]%nat /\
+  sprand_subs_union 2 [2; 3]%nat ([[0; h]; [h; 7]]%Z :: ds) = sprand_subs 2 [2; 3]%nat ([[0; h]; [h; 7]]%Z :: ds).
+Proof. exact sprand_union_example. Qed.
